@@ -306,6 +306,17 @@ def boundary_texts(tier):
         out.append(("module-lets-%d" % n, "".join("let m%d = %d;\n" % (i, i) for i in range(n)) + "print(m0);"))
         out.append(("methods-%d" % n, "class K {\n" + "".join("m%d() { %d }\n" % (i, i) for i in range(n)) + "}\nprint(K().m0());"))
         out.append(("catch-chain-%d" % n, "try { raise Error(\"x\"); }" + "".join(" catch e%d: TypeError {}" % i for i in range(min(n, 60))) + " catch e { print(\"ok\"); }"))
+    for n in (256, 257, 258, 300):
+        # past the limit of locals the compiler reports the error and goes on: every later use of a late local (read,
+        # write, capture, loop variable, compound assignment) has to survive that
+        decl = "".join("let a%d = %d;\n" % (i, i) for i in range(n))
+        last = "a%d" % (n - 1)
+        out.append(("locals-%d-read-late" % n, "fn f() {\n" + decl + "return %s;\n}\nprint(f());" % last))
+        out.append(("locals-%d-write-late" % n, "fn f() {\n" + decl + "%s = 1;\n%s += 2;\nreturn a0;\n}\nprint(f());" % (last, last)))
+        out.append(("locals-%d-capture-late" % n, "fn f() {\n" + decl + "let g = || %s;\nreturn g();\n}\nprint(f());" % last))
+        out.append(("locals-%d-for-late" % n, "fn f() {\n" + decl + "for x in [1, 2] { print(x + %s); }\nreturn a0;\n}\nprint(f());" % last))
+        out.append(("locals-%d-try-late" % n, "fn f() {\n" + decl + "try { raise Error(\"x\"); } catch e { print(e.message, %s); }\nreturn a0;\n}\nprint(f());" % last))
+        out.append(("locals-%d-nested-fn-late" % n, "fn f() {\n" + decl + "fn g() { return %s + a0; }\nreturn g();\n}\nprint(f());" % last))
     for n in (65534, 65535, 65536, 65537, 70000):
         # the line table holds 16 bit line numbers
         out.append(("lines-%d" % n, "\n" * (n - 1) + "print(1);\nprint(2);"))
